@@ -15,7 +15,7 @@ import re
 import genb
 from vlib import rnd_u64, U64, xhex
 
-THEOREMS = ["C13_depends_only_on_ident", "C13_injective_outside_known", "C13_iff_outside_known", "C13_refuted", "C13_fragment_collides",
+THEOREMS = ["C13_received_report_refers", "C13_depends_only_on_ident", "C13_injective_outside_known", "C13_iff_outside_known", "C13_refuted", "C13_fragment_collides",
             "C13_known_none_name_narrow", "C13_refbundle"]
 RELEASE = True          # debug and release builds of the harness (debug_assert!, overflow checks, cfg(debug_assertions))
 RULE = ("IDPAIR: (a) adversarial re-splittings of one ID text 'T-n1-n2[-n3]' into (source, time, seq[, offset]) at every dash, sources "
